@@ -84,7 +84,8 @@ RULE = (
     "tensors; operators + - * @ and scalar scaling; alias a name; alias the C struct (struct "
     "outliving its Tensor); raw read; pickle round trip; to_format; ==; refused evaluate "
     "(inconsistent argument); del; gc; cache_clear (the compiled method is dropped while its "
-    "results live on)}, under a seeded heap (garbage, red zones, realloc/zero "
+    "results live on); items() iterators opened and advanced across operations; shape floods; "
+    "evaluation through a Problem with the target listed last}, under a seeded heap (garbage, red zones, realloc/zero "
     "policy), a per-worker initial capacity, and gc.collect() injected at seeded trace lines "
     "inside operations; every evaluate uses one of two dimension sets; 10% of the quick histories "
     "(30% when serving C02, 35% thorough) are dealt out to two simulated threads over a palette of "
